@@ -243,6 +243,35 @@ func (c *Ctx) tokenHandlerGates(th tokenHandler, fn *ssa.Function) {
 		}
 		r.Check(ok, "C05.single-use", name, m+`("")`, pos, "cleared with the empty constant", "the used token's "+m+" is not overwritten with the empty string")
 	}
+	// (3b) a link that has no further condition to meet (confirmation) is spent by
+	// every request that presents it: from the verifier compare, along its success
+	// edge, no return that can report success is reached before the token is cleared
+	if th.expiry == "" {
+		for _, cmp := range CallsTo(fn, fnCTC) {
+			for _, m := range th.clears {
+				q := PathQuery{From: cmp.(ssa.Instruction), Cut: func(i ssa.Instruction) bool {
+					call, ok := i.(ssa.CallInstruction)
+					if !ok || !call.Common().IsInvoke() || call.Common().Method.Name() != m {
+						return false
+					}
+					s, isC := ConstStr(Arg(call, 0))
+					return isC && s == ""
+				}, GoalP: c.nonErrorReturn, PruneFact: func(f Fact) bool {
+					for _, cr := range c.credOf(f.Cond, !f.Pol, 0) {
+						if cr.Kind == "ctc" && cr.Check == cmp {
+							return true
+						}
+					}
+					return false
+				}}
+				if p := q.Find(); p != nil {
+					r.Bad("C05.single-use", name, "compare ok ⇒ "+m+`("")`, posf(c, p[len(p)-1]), "a request whose token matched can be answered without the token being cleared: the same link is accepted again", c.P.DescribePath(p)...)
+				} else {
+					r.Ok("C05.single-use", name, "compare ok ⇒ "+m+`("")`, posf(c, cmp), "every answer to a matching token clears it first")
+				}
+			}
+		}
+	}
 	c.mustSaveAfterPut("C05.save", fn, nil)
 	// the new password and the spent token reach storage in one write: no storer
 	// write lies between setting the password and clearing the token
